@@ -19,7 +19,7 @@ theorem C10_close_only_when_drained (s : St) (now : Nat) :
       pumpWrite s now = ((tClose s3).1, closePW (tClose s3).2) := by
   refine pumpWrite_cases (motive := fun p => p.1.obs.filter isCloseObs = s.obs.filter isCloseObs ∨
     ∃ s3, senders s3 = 0 ∧ s3.pq = [] ∧ s3.cq = [] ∧ s3.obs.filter isCloseObs = s.obs.filter isCloseObs ∧
-      p = ((tClose s3).1, closePW (tClose s3).2)) s now ?_ ?_ ?_ ?_ ?_
+      p = ((tClose s3).1, closePW (tClose s3).2)) s now ?_ ?_ ?_ ?_ ?_ ?_
   · intro s1 r1 h1 _
     have f1 := pollWriteRequest_frameP s now; rw [h1] at f1
     exact .inl f1.closeObs
@@ -28,6 +28,11 @@ theorem C10_close_only_when_drained (s : St) (now : Nat) :
     have f2 := pollWriteCancel_frameP s1; rw [h2] at f2
     exact .inl (f1.trans f2).closeObs
   · intro s1 r1 s2 r2 s3 h1 _ h2 _ h3
+    have f1 := pollWriteRequest_frameP s now; rw [h1] at f1
+    have f2 := pollWriteCancel_frameP s1; rw [h2] at f2
+    have f3 := (pollExpired_frameA s2 now).toP; rw [h3] at f3
+    exact .inl ((f1.trans f2).trans f3).closeObs
+  · intro s1 r1 s2 r2 s3 h1 _ h2 _ h3 _
     have f1 := pollWriteRequest_frameP s now; rw [h1] at f1
     have f2 := pollWriteCancel_frameP s1; rw [h2] at f2
     have f3 := (pollExpired_frameA s2 now).toP; rw [h3] at f3
